@@ -342,6 +342,7 @@ FIXED_SOURCES = [
     ('parser {\n\x0c  "a"; undefinedhook(); }', []), ('parser {\r  "a"; undefinedhook(); }', []),
     ('macro m() { loop { loop { loop { loop { loop { loop { loop { loop { loop { loop { loop { "a"; m(); } } } } } } } } } } } }\nparser { m(); }', []),
     ('out enum{EA,EB} e0;\nparser { "a"; e0 = true; }', []), ('out enum{EA,EB} e0;\nparser { "a"; if e0 == false { "b"; } }', []),
+    ('out int{unsigned, size 1} n0 = 100;\nout str[8] s0;\nparser { loop { "a"; if n0 == 1 { break; } } try { s0 += [n0]; "b"; } catch { } "x"; }', ["-O3"]),
     ('parser { ""; }', []), ('parser { "6"b; }', []), ('parser { /a{3,2}/; }', []), ('parser { "é"; }', []), ('parser { /[c-a]/; }', []),
 ]
 
